@@ -193,8 +193,8 @@ def SLOPE(*yx):
         return error.DIV_ZERO
 
     # SLOPE(known_ys, known_xs): each half may be a range (rows of cells) or an array
-    ys = utils.flatten(list(ys))
-    xs = utils.flatten(list(xs))
+    ys = [utils.plain_number(y) for y in utils.iflatten(list(ys))]
+    xs = [utils.plain_number(x) for x in utils.iflatten(list(xs))]
     if len(ys) != len(xs):
         return error.NOT_AVAILABLE
 
